@@ -100,10 +100,23 @@ RECURSIVE GetPath(_, _)
 GetPath(val, path) == IF path = <<>> THEN val ELSE GetPath(val[Head(path)], Tail(path))
 
 (* ------------------------------ evaluator ------------------------------ *)
-(* state: env (name -> value), log, heap (list id -> contents), ins        *)
+(* state: env (a stack of scopes, innermost last, each name -> value),      *)
+(*        log, heap (list id -> contents), ins                              *)
+(* Scoping: every block, match arm and loop body opens a scope that ends    *)
+(* with it; `let` binds in the innermost scope (shadowing any outer         *)
+(* variable of the same name until the scope ends - the initialiser is      *)
+(* evaluated BEFORE the new name is bound, so it still sees the outer one); *)
+(* a use / assignment refers to the innermost binding of the name.          *)
 V(st, v) == [st |-> st, k |-> "v", v |-> v]
 R(st, v) == [st |-> st, k |-> "ret", v |-> v]
-Bind(st, n, v) == [st EXCEPT !.env = (n :> v) @@ st.env]
+ScopeOf(env, n) == CHOOSE i \in 1..Len(env) :
+                      n \in DOMAIN env[i] /\ \A j \in (i + 1)..Len(env) : n \notin DOMAIN env[j]
+Lookup(env, n) == env[ScopeOf(env, n)][n]
+Bind(st, n, v) == [st EXCEPT !.env[Len(st.env)] = (n :> v) @@ @]
+Assign(st, n, v) == [st EXCEPT !.env[ScopeOf(st.env, n)] = (n :> v) @@ @]
+Push(st, sc) == [st EXCEPT !.env = Append(@, sc)]
+Pop(st) == [st EXCEPT !.env = SubSeq(@, 1, Len(@) - 1)]
+NoVars == [n \in {} |-> 0]
 Log(st, entry) == [st EXCEPT !.log = Append(st.log, entry)]
 Fuel == 100000
 
@@ -134,8 +147,8 @@ Loop(prog, c, b, st, fuel) ==
 ForLoop(prog, n, ref, b, st, i) ==
     IF i > 10000 THEN [st |-> st, k |-> "fuel", v |-> Unit]
     ELSE IF i > Len(st.heap[ref]) THEN V(st, Unit)
-    ELSE LET rb == Ev(prog, b, Bind(st, n, st.heap[ref][i])) IN
-         IF rb.k # "v" THEN rb ELSE ForLoop(prog, n, ref, b, rb.st, i + 1)
+    ELSE LET rb == Ev(prog, b, Push(st, n :> st.heap[ref][i])) IN
+         IF rb.k # "v" THEN rb ELSE ForLoop(prog, n, ref, b, Pop(rb.st), i + 1)
 
 (* match arms in source order; a guard is evaluated only when the pattern fits *)
 Arms(prog, arms, i, val, st, dummy) ==
@@ -143,15 +156,17 @@ Arms(prog, arms, i, val, st, dummy) ==
     ELSE LET a == arms[i] IN
          IF a.v # "_" /\ a.v # val.v THEN Arms(prog, arms, i + 1, val, st, dummy)
          ELSE
-              LET st2 == IF a.v = "_" THEN st
-                         ELSE [st EXCEPT !.env =
-                                 [n \in {a.bs[j] : j \in 1..Len(a.bs)} |->
-                                     val.p[CHOOSE j \in 1..Len(a.bs) : a.bs[j] = n]] @@ st.env] IN
-              IF a.g = <<>> THEN Ev(prog, a.b, st2)
+              \* the bindings of the pattern live in a scope of their own (guard and arm body)
+              LET st2 == IF a.v = "_" THEN Push(st, NoVars)
+                         ELSE Push(st, [n \in {a.bs[j] : j \in 1..Len(a.bs)} |->
+                                           val.p[CHOOSE j \in 1..Len(a.bs) : a.bs[j] = n]])
+                  body(sb) == LET rb == Ev(prog, a.b, sb) IN
+                              IF rb.k # "v" THEN rb ELSE V(Pop(rb.st), rb.v) IN
+              IF a.g = <<>> THEN body(st2)
               ELSE LET rg == Ev(prog, a.g[1], st2) IN
                    IF rg.k # "v" THEN rg
-                   ELSE IF rg.v THEN Ev(prog, a.b, rg.st)
-                   ELSE Arms(prog, arms, i + 1, val, rg.st, dummy)
+                   ELSE IF rg.v THEN body(rg.st)
+                   ELSE Arms(prog, arms, i + 1, val, Pop(rg.st), dummy)
 
 FParts(prog, ps, i, st, acc, dummy) ==
     IF i > Len(ps) THEN V(st, Str(acc))
@@ -163,7 +178,7 @@ Ev(prog, e, st) ==
     CASE e.k = "lit" -> V(st, e.v)
       \* a float literal denotes the nearest value of its type (ties to even)
       [] e.k = "flit" -> V(st, RoundTo(0, e.m, e.e, MantBits(e.ty)))
-      [] e.k = "var" -> V(st, st.env[e.n])
+      [] e.k = "var" -> V(st, Lookup(st.env, e.n))
       [] e.k = "un" ->
             LET r == Ev(prog, e.e, st) IN
             IF r.k # "v" THEN r ELSE V(r.st, UnOp(e.op, e.ty, r.v))
@@ -182,24 +197,26 @@ Ev(prog, e, st) ==
             ELSE IF c.v THEN Ev(prog, e.t, c.st)
             ELSE IF e.e = <<>> THEN V(c.st, Unit) ELSE Ev(prog, e.e[1], c.st)
       [] e.k = "block" ->
-            LET r == ExecSeq(prog, e.ss, 1, st, 0) IN
+            LET r == ExecSeq(prog, e.ss, 1, Push(st, NoVars), 0) IN
             IF r.k # "v" THEN r
-            ELSE IF e.e = <<>> THEN V(r.st, Unit) ELSE Ev(prog, e.e[1], r.st)
+            ELSE IF e.e = <<>> THEN V(Pop(r.st), Unit)
+            ELSE LET r2 == Ev(prog, e.e[1], r.st) IN
+                 IF r2.k # "v" THEN r2 ELSE V(Pop(r2.st), r2.v)
       [] e.k = "let" ->
             LET r == Ev(prog, e.e, st) IN
             IF r.k # "v" THEN r ELSE V(Bind(r.st, e.n, r.v), Unit)
       [] e.k = "set" ->
             LET r == Ev(prog, e.e, st) IN
             IF r.k # "v" THEN r
-            ELSE V(Bind(r.st, e.p[1], SetPath(r.st.env[e.p[1]], Tail(e.p), r.v)), Unit)
+            ELSE V(Assign(r.st, e.p[1], SetPath(Lookup(r.st.env, e.p[1]), Tail(e.p), r.v)), Unit)
       [] e.k = "cset" ->
             \* x op= e  is  x = x op e : the target is read before e is evaluated
-            LET old == GetPath(st.env[e.p[1]], Tail(e.p))
+            LET old == GetPath(Lookup(st.env, e.p[1]), Tail(e.p))
                 r == Ev(prog, e.e, st) IN
             IF r.k # "v" THEN r
             ELSE IF ~BinDefined(e.op, e.ty, old, r.v) THEN [st |-> r.st, k |-> "undefined", v |-> Unit]
-            ELSE V(Bind(r.st, e.p[1], SetPath(r.st.env[e.p[1]], Tail(e.p),
-                                             BinOp(e.op, e.ty, old, r.v, r.st.heap))), Unit)
+            ELSE V(Assign(r.st, e.p[1], SetPath(Lookup(r.st.env, e.p[1]), Tail(e.p),
+                                               BinOp(e.op, e.ty, old, r.v, r.st.heap))), Unit)
       [] e.k = "while" -> Loop(prog, e.c, e.b, st, 10000)
       [] e.k = "for" ->
             LET r == Ev(prog, e.e, st) IN
@@ -208,8 +225,8 @@ Ev(prog, e, st) ==
             LET as == EvSeq(prog, e.args, 1, st, <<>>) IN
             IF as.k # "v" THEN as
             ELSE LET f == prog.fns[e.f]
-                     inner == [as.st EXCEPT !.env = [n \in {f.ps[j] : j \in 1..Len(f.ps)} |->
-                                                       as.v[CHOOSE j \in 1..Len(f.ps) : f.ps[j] = n]]]
+                     inner == [as.st EXCEPT !.env = << [n \in {f.ps[j] : j \in 1..Len(f.ps)} |->
+                                                          as.v[CHOOSE j \in 1..Len(f.ps) : f.ps[j] = n]] >>]
                      r == Ev(prog, f.b, inner) IN
                  IF r.k \notin {"v", "ret"} THEN r
                  ELSE V([r.st EXCEPT !.env = as.st.env], r.v)
@@ -276,7 +293,7 @@ Ev(prog, e, st) ==
 (* the observable outcome of calling fn(args) with host inputs ins *)
 Eval(prog, fn, args, ins) ==
     LET f == prog.fns[fn]
-        st0 == [env |-> [n \in {f.ps[j] : j \in 1..Len(f.ps)} |-> args[CHOOSE j \in 1..Len(f.ps) : f.ps[j] = n]],
+        st0 == [env |-> << [n \in {f.ps[j] : j \in 1..Len(f.ps)} |-> args[CHOOSE j \in 1..Len(f.ps) : f.ps[j] = n]] >>,
                 log |-> <<>>, heap |-> <<>>, ins |-> ins]
         r == Ev(prog, f.b, st0) IN
     [k |-> IF r.k \in {"v", "ret"} THEN "ok" ELSE r.k, v |-> r.v, log |-> r.st.log, heap |-> r.st.heap]
